@@ -288,6 +288,10 @@ func ConvertExtendedSpatialIDsToQuadkeysAndVerticalIDs(extendedSpatialIDs []stri
 			}
 			indexesInt = append(indexesInt, value)
 		}
+		if len(indexesInt) != 5 {
+			// 拡張空間IDの成分数がフォーマットに従っていない場合エラーインスタンスを返却
+			return []*object.FromExtendedSpatialIDToQuadkeyAndVerticalID{}, errors.NewSpatialIdError(errors.InputValueErrorCode, "")
+		}
 
 		hZoom := indexesInt[0]
 		xIndex := indexesInt[1]
